@@ -28,7 +28,14 @@ func tickStmt() ast.Stmt {
 func main() {
 	repo := flag.String("repo", "/repo", "repository root")
 	out := flag.String("out", "", "output directory")
+	substFile := flag.String("subst", "", "JSON {original path: replacement path}: read these sources from the replacement (experiments with patched files)")
 	flag.Parse()
+	subst := map[string]string{}
+	if *substFile != "" {
+		if b, err := os.ReadFile(*substFile); err == nil {
+			json.Unmarshal(b, &subst)
+		}
+	}
 	repl := map[string]string{}
 	funcs, loops := 0, 0
 	for _, pkg := range flag.Args() {
@@ -44,8 +51,12 @@ func main() {
 				continue
 			}
 			src := filepath.Join(dir, name)
+			readFrom := src
+			if r, ok := subst[src]; ok {
+				readFrom = r
+			}
 			fset := token.NewFileSet()
-			f, err := parser.ParseFile(fset, src, nil, parser.ParseComments)
+			f, err := parser.ParseFile(fset, readFrom, nil, parser.ParseComments)
 			if err != nil {
 				fmt.Fprintln(os.Stderr, err)
 				os.Exit(1)
